@@ -148,7 +148,15 @@ class ExprMixin:
             return memo[k]
         r = self._convert_live(v)
         memo[k] = r
+        if isinstance(r, (list, dict, Obj)):
+            # module-level mutable object: a write to it would be state kept between calls, which single-call
+            # verification conditions do not model - such a body is outside the accepted subset
+            memo.setdefault("shared-ids", set()).add(id(r))
         return r
+
+    def check_not_shared(self, obj, w):
+        if id(obj) in self.ctx.memo.get("shared-ids", ()):
+            raise Unsupported("UNSUPPORTED %s write to a module-level object (state kept between calls is not modelled by single-call VCs)" % (w,))
 
     def _convert_live(self, v):
         if v is None or isinstance(v, (bool, int, str)):
